@@ -288,14 +288,15 @@ func copiesArgumentList(an *own.Analyzer, fn *ssa.Function) bool {
 	}
 	return false
 }
+
 var ownExceptions = map[string]string{
-	"slip.EvalArg|store into param:args": "replaces a form in a code list by its compiled function object (ListToFunc), the code-caching idiom decided by C08.cache, not a write into Lisp data",
-	"pkg/cl.(Append).Call|append into extract#0(assert:slip.List)":   "the accumulator reaches this append only as the copy made when the first non-empty list was seen (make+copy a few lines above) or as the result of an earlier append onto that copy; the paths on which the accumulator is an argument itself have len 0 or are not lists and take the other branch (path reasoning beyond the flow-insensitive engine)",
-	"pkg/cl.(Append).Call|append into extract#0(assert:slip.List)#2": "as the first append in Append.Call: the accumulator is the private copy",
+	"slip.EvalArg|store into param:args":                                 "replaces a form in a code list by its compiled function object (ListToFunc), the code-caching idiom decided by C08.cache, not a write into Lisp data",
+	"pkg/cl.(Append).Call|append into extract#0(assert:slip.List)":       "the accumulator reaches this append only as the copy made when the first non-empty list was seen (make+copy a few lines above) or as the result of an earlier append onto that copy; the paths on which the accumulator is an argument itself have len 0 or are not lists and take the other branch (path reasoning beyond the flow-insensitive engine)",
+	"pkg/cl.(Append).Call|append into extract#0(assert:slip.List)#2":     "as the first append in Append.Call: the accumulator is the private copy",
 	"pkg/gi.(Select).prepClauses|store into extract#0(assert:slip.List)": "replaces the channel form of a select clause by its compiled function object (ListToFunc), the code-caching idiom of C08.cache, not a data write",
 	"pkg/repl.(UseStash).Call|append into extract#0(assert:slip.List)":   "appends the default \".\" only when the load-path list is empty; nothing of a non-empty list is written",
-	"slip.WrapError|append into phi:stack":                                "extends the condition object's own internal stack slot, which is then stored back into that slot",
-	"slip.addFeature|append into assert:slip.List":                        "init-time registration on the *features* constant before any Lisp code runs",
+	"slip.WrapError|append into phi:stack":                               "extends the condition object's own internal stack slot, which is then stored back into that slot",
+	"slip.addFeature|append into assert:slip.List":                       "init-time registration on the *features* constant before any Lisp code runs",
 }
 
 // fromObjectAssert: the list value was obtained by a type assertion from an interface value (a Lisp object).
